@@ -13,6 +13,16 @@ const CHECKPOINT_SEQ_META: &str = "checkpoint_seq";
 /// Persistence layer for checkpoints, backed by the blob store.
 pub struct CheckpointStorage;
 
+/// A checkpoint artifact held in memory while the store underneath the blob
+/// store is rolled back.
+pub(crate) struct SavedCheckpoint {
+    checkpoint_id: String,
+    filename: String,
+    created_by: String,
+    custom: std::collections::HashMap<String, String>,
+    data: Vec<u8>,
+}
+
 impl CheckpointStorage {
     /// Serialize and store a checkpoint, returning its blob artifact ID.
     pub async fn store(state: &CheckpointState, blob: &BlobStore) -> Result<String> {
@@ -134,6 +144,64 @@ impl CheckpointStorage {
         });
 
         Ok(checkpoints)
+    }
+
+    /// Read every stored checkpoint artifact (metadata and bytes) into memory.
+    ///
+    /// Together with [`Self::reinstate`] this carries the set of checkpoints
+    /// across a rollback of the store that also holds the blob data.
+    pub(crate) async fn export_all(blob: &BlobStore) -> Result<Vec<SavedCheckpoint>> {
+        let mut saved = Vec::new();
+        for info in Self::list(blob).await? {
+            let meta = blob
+                .metadata(&info.artifact_id)
+                .await
+                .map_err(CheckpointError::Blob)?;
+            let data = blob
+                .get(&info.artifact_id)
+                .await
+                .map_err(CheckpointError::Blob)?;
+            saved.push(SavedCheckpoint {
+                checkpoint_id: info.id,
+                filename: meta.filename,
+                created_by: meta.created_by,
+                custom: meta.custom,
+                data,
+            });
+        }
+        Ok(saved)
+    }
+
+    /// Make the stored checkpoints equal to `saved` again: checkpoints the blob
+    /// store no longer knows are stored again (same id, name, timestamps and
+    /// sequence number), checkpoints that are not in `saved` are deleted.
+    /// A no-op when the blob store was not touched in between.
+    pub(crate) async fn reinstate(saved: Vec<SavedCheckpoint>, blob: &BlobStore) -> Result<()> {
+        let present = Self::list(blob).await?;
+
+        for cp in &present {
+            if !saved.iter().any(|s| s.checkpoint_id == cp.id) {
+                Self::delete(&cp.artifact_id, blob).await?;
+            }
+        }
+
+        for s in saved {
+            if present.iter().any(|cp| cp.id == s.checkpoint_id) {
+                continue;
+            }
+            let mut options = PutOptions::new()
+                .with_content_type(CHECKPOINT_CONTENT_TYPE)
+                .with_tag(CHECKPOINT_TAG)
+                .with_created_by(s.created_by);
+            for (k, v) in s.custom {
+                options = options.with_meta(k, v);
+            }
+            blob.put(&s.filename, &s.data, options)
+                .await
+                .map_err(CheckpointError::Blob)?;
+        }
+
+        Ok(())
     }
 
     /// Delete a checkpoint by its blob artifact ID.
